@@ -37,10 +37,7 @@ type program struct {
 	// TermSensitive: the program triggers a documented WithCloseOnContextDone condition (the host closes
 	// the module and returns into the guest); it is compared per value of that option.
 	TermSensitive bool
-	// MayFailCompile: valid wasm that the baseline configuration is allowed to reject without that being a
-	// corpus error (the lattice still demands that every point agrees with the baseline).
-	MayFailCompile bool
-	Order          bool // member of the quick-tier slice used for shared-cache order scenarios
+	Order         bool // member of the quick-tier slice used for shared-cache order scenarios
 	// ListenHostOnly: when the listener toggle is on, the factory returns listeners for host functions only
 	// (default: for every function, guest and host).
 	ListenHostOnly bool
@@ -1175,16 +1172,45 @@ func famSections(th bool) []*program {
 	p.Order = true
 	mk("sec-dwarf-garbage", 0, append(garbageDWARF(0), meta), nil, "")
 	mk("sec-custom-leading", 0, []wb.Custom{meta}, []wb.Custom{{Name: "first", Data: []byte{1, 2, 3}}, {Name: "empty-middle"}, {Name: ".debug_str", Data: []byte("x\x00")}}, "")
-	p = mk("sec-custom-empty-last", 0, []wb.Custom{meta, {Name: "empty-last"}}, nil, "empty-trailing-custom-section")
-	p.MayFailCompile = true
+	mk("sec-custom-empty-last", 0, []wb.Custom{meta, {Name: "empty-last"}}, nil, "empty-trailing-custom-section")
+	// debug sections that are present but not usable: every one of these programs is RUN at every point (normal
+	// call, unreachable two frames deep, out-of-bounds load), so the DWARF line lookup of the error path is
+	// exercised; trap kinds are compared, error texts are not.
+	vd := validDWARF(400, "c12.c") // [.debug_abbrev, .debug_info, .debug_line, .debug_str]
+	info := vd[1]
+	mk("sec-dwarf-truncated-info", 0, []wb.Custom{vd[0], {Name: ".debug_info", Data: info.Data[:len(info.Data)/2]}, vd[2], vd[3]}, nil, "debug-info-not-valid-dwarf")
+	mk("sec-dwarf-info-only", 0, []wb.Custom{meta, info}, nil, "debug-info-not-valid-dwarf")
+	mk("sec-dwarf-empty-info", 0, []wb.Custom{vd[0], {Name: ".debug_info"}, vd[2], vd[3], meta}, nil, "debug-info-not-valid-dwarf")
+	{
+		// a "name" custom section with garbage the decoder has to skip (unknown subsections) around real names
+		var nm []byte
+		nm = append(nm, 7, 6, 0xde, 0xad, 0xbe, 0xef, 0x80, 0xff)
+		nm = append(nm, 0, 8, 7)
+		nm = append(nm, "c12-mod"...)
+		nm = append(nm, 9, 3, 0xff, 0xff, 0xff)
+		fn := append([]byte{1, 1, 13}, "inner_garbled"...)
+		nm = append(nm, 1, byte(len(fn)))
+		nm = append(nm, fn...)
+		nm = append(nm, 0x7f, 4, 1, 2, 3, 4)
+		b := sectionsBase("sec-name-garbage", 0)
+		b.m.FuncNames = nil
+		b.m.Customs = []wb.Custom{meta, {Name: "name", Data: nm}}
+		p := b.done()
+		p.Tag = "name-section-garbage"
+		ps = append(ps, p)
+	}
+	for _, q := range ps {
+		if q.Name == "sec-dwarf-garbage" {
+			q.Tag = "debug-info-not-valid-dwarf"
+		}
+	}
 	if th {
 		for k := 1; k < 5; k++ {
 			mk(fmt.Sprintf("sec-dwarf-valid-%d", k), k, validDWARF(uint32(50*k), fmt.Sprintf("f%d.c", k)), nil, "")
 			mk(fmt.Sprintf("sec-dwarf-garbage-%d", k), k, garbageDWARF(k), nil, "")
 			mk(fmt.Sprintf("sec-dwarf-leading-%d", k), k, []wb.Custom{meta}, validDWARF(uint32(100+k), "lead.c"), "")
 		}
-		p = mk("sec-dwarf-then-empty-last", 1, append(validDWARF(300, "c12.c"), wb.Custom{Name: "z"}), nil, "empty-trailing-custom-section")
-		p.MayFailCompile = true
+		mk("sec-dwarf-then-empty-last", 1, append(validDWARF(300, "c12.c"), wb.Custom{Name: "z"}), nil, "empty-trailing-custom-section")
 		mk("sec-names-only", 2, nil, nil, "")
 		mk("sec-dwarf-partial", 3, validDWARF(300, "p.c")[:2], nil, "")
 	}
